@@ -139,7 +139,7 @@ class B:
     def pro_op(self):
         name = self.draw(st.sampled_from(sorted(self.lists)))
         t, n = self.lists[name]
-        op = self.draw(st.sampled_from(["append", "remove_present", "drain_refill", "loop_append", "copy_assign", "skewed_copy", "skewed_copy", "read", "read", "self_assign", "reassign", "alias", "helper_read", "helper_mutate", "empty_range", "swap_lists", "swap_lists", "cond_assign", "cond_assign"]))
+        op = self.draw(st.sampled_from(["append", "remove_present", "drain_refill", "loop_append", "copy_assign", "skewed_copy", "skewed_copy", "skewed_copy", "skewed_copy", "read", "read", "self_assign", "reassign", "alias", "helper_read", "helper_mutate", "empty_range", "swap_lists", "swap_lists", "cond_assign", "cond_assign"]))
         d = self.pro
         if op == "append":
             d.append(f"{name}.append({self.operand(t, d, (name, n))})"); self.lists[name][1] += 1
@@ -169,8 +169,14 @@ class B:
         elif op == "skewed_copy" and t in ("int", "bool"):
             # both lists have seen the same *number of append statements*, but one of them inside a loop: equal on paper, different at run time
             others = sorted(o for o, (ot, on) in self.lists.items() if o != name and ot == t and on >= 1)
+            if n >= 1 and (not others or self.draw(st.booleans())):
+                # a partner of exactly the same length on paper (a fresh literal list)
+                src = self.nm("l")
+                d.append(f"{src} = [{', '.join(self.elem(t) for _ in range(n))}]")
+                self.lists[src] = [t, n]
+                others = [src]
             if others and n >= 1:
-                src = self.draw(st.sampled_from(others))
+                src = self.draw(st.sampled_from(others)) if len(others) > 1 else others[0]
                 k = self.draw(st.integers(2, 3))
                 grow_src = self.draw(st.booleans())
                 big, small_ = (src, name) if grow_src else (name, src)
